@@ -5,8 +5,41 @@ let pz = string_of_z
 let pr (r : Model.rat) = pz (fst r) ^ " " ^ pz (snd r)
 let po (o : Model.rat option) = match o with Some r -> pr r | None -> "THROW"
 let pb b = if b then "1" else "0"
+exception Throw
+(* a sequence of in-place operations on one object: x.n x.d (op y.n y.d)* *)
+let run_seq red (toks : string list) : string =
+  let get = function Some r -> r | None -> raise Throw in
+  let rec go (x : Model.rat) = function
+    | op :: yn :: yd :: rest ->
+      let y = (zs yn, zs yd) in
+      let x' = (match op with
+        | "a" | "qa" -> Model.addin false y red x
+        | "s" | "qs" -> Model.subin false y red x
+        | "m" | "qm" -> Model.mulin false y red x
+        | "d" | "qd" -> get (Model.divin false y red x)
+        | "A" -> Model.addin true x red x
+        | "S" -> Model.subin true x red x
+        | "M" -> Model.mulin true x red x
+        | "D" -> get (Model.divin true x red x)
+        | "n" -> Model.q_negin x
+        | "i" -> Model.q_invin x
+        | "N" -> Model.rneg x
+        | "t" -> Model.radd red x y
+        | "u" -> Model.rsub red x y
+        | "p" -> Model.rmul red x y
+        | "q" -> get (Model.rdiv red x y)
+        | "xa" -> Model.q_axpyin red x y y
+        | "xm" -> Model.q_maxpyin red x y y
+        | _ -> failwith "seq op") in
+      go x' rest
+    | _ -> x in
+  match toks with
+  | xn :: xd :: rest -> (try pr (go (zs xn, zs xd) rest) with Throw -> "THROW")
+  | _ -> "BAD-SEQ"
 let () = run_lines (fun toks ->
   match toks with
+  | "skip" :: _ -> "SKIP"
+  | "seq" :: reds :: args -> run_seq (reds = "1") args
   | op :: reds :: args ->
     let red = (reds = "1") in
     let a = Array.of_list (List.map zs args) in
@@ -40,6 +73,10 @@ let () = run_lines (fun toks ->
      | "subin" -> pr (Model.subin (b 0) (if b 0 then r 1 else r 3) red (r 1))
      | "mulin" -> pr (Model.mulin (b 0) (if b 0 then r 1 else r 3) red (r 1))
      | "divin" -> po (Model.divin (b 0) (if b 0 then r 1 else r 3) red (r 1))
+     | "conv_int" -> pz (Model.conv_int (r 0))
+     | "print" -> (match Model.print_den (r 0) with Some d -> pz (fst (r 0)) ^ "/" ^ pz d | None -> pz (fst (r 0)))
+     | "string" -> pz (fst (r 0)) ^ "/" ^ pz (snd (r 0))
+     | "mod" -> (match Model.rmod (r 0) a.(2) with None -> "THROW" | Some None -> "NOINV" | Some (Some v) -> pz v)
      | "trunc" -> pz (Model.trunc (r 0))
      | "floor" -> pz (Model.floor (r 0))
      | "ceil" -> pz (Model.ceil (r 0))
